@@ -219,6 +219,10 @@ func init() {
 		n := c.Pick(1500, 40000)
 		for i := 0; i < n; i++ {
 			o := GenOpts{Conds: true, Modular: rng.Intn(3) == 0, MaxDepth: 2 + rng.Intn(5), DSLValid: rng.Intn(3) == 0}
+			if i%10 == 9 {
+				o.Large, o.MaxDepth = true, 1
+				c.Dist("large_models")
+			}
 			m := GenModel(rng, o)
 			c02Check(c, m, "random")
 			c.Dist("random_models")
